@@ -165,7 +165,7 @@ def _unordered_sweep(ctx: RuleCtx, scope: T.List[str]) -> None:
                     ctx.ok(f'{_describe(s)} -> {s.verdict}{": " + s.reason if s.reason else ""}'[:300])
                 else:
                     ctx.note(f'probing order not decided ({s.verdict}): {_describe(s)}: {s.reason}'[:320])
-    ctx.floor('detection functions that read the environment / list directories', nfun, 20)
+    ctx.floor('detection functions that read the environment / list directories', nfun, 10)
     ctx.note(f'unordered-source sweep: {nfun} functions, {nsites} uses')
 
 
@@ -183,9 +183,9 @@ def r1(ctx: RuleCtx) -> None:
                     ctx.ok(f'{_describe(s)} -> {s.verdict}{": " + s.reason if s.reason else ""}'[:300])
                 else:
                     ctx.note(f'unclassified: {_describe(s)}: {s.reason}'[:320])
-        ctx.floor('uses of set-typed values classified in scope', sum(counts.values()), 50)
-        ctx.floor('consumers discharged as order-insensitive', counts['benign'], 25)
-        ctx.floor('consumers sanitised by sorted()', counts['sanitised'], 5)
+        ctx.floor('uses of set-typed values classified in scope', sum(counts.values()), 30)
+        ctx.floor('consumers discharged as order-insensitive', counts['benign'], 15)
+        ctx.floor('consumers sanitised by sorted()', counts['sanitised'], 3)
         sc = _scanner(ctx)
         ctx.note(f'sites: {counts}; callee resolution in summaries: {sc.calls_resolved} resolved, {sc.calls_unresolved} unresolved')
         _unordered_sweep(ctx, scope)
@@ -262,6 +262,13 @@ def _r2_core(ctx: RuleCtx) -> None:
             carriers = [c for c in ast.walk(fn) if isinstance(c, ast.Call) and isinstance(c.func, ast.Name) and c.func.id == 'sorted'
                         and c.args and origin in raw.origins(c.args[0])]
             ok = origin not in o and 'san:sorted' in o and bool(carriers)
+            if not ok:
+                # closed world: the unsorted use must be a consumer the K10 classifier reads as order-sensitive; a flow through a helper
+                # or an idiom it cannot classify is not a finding
+                verdicts = {s2.verdict for s2 in _sites(ctx, NINJA) if s2.func == 'NinjaBuildElement.write' and attr_chain(s2.value) == f'self.{a}'}
+                if 'violation' not in verdicts:
+                    raise Undecided(f'NinjaBuildElement.write: self.{a} reaches {short(w, 40)} without a sorted() on the way, but no consumer of it is '
+                                    f'classified as order-sensitive (site verdicts: {sorted(verdicts)})')
             bad_reads = [n for n in ast.walk(fn) if isinstance(n, ast.Attribute) and attr_chain(n) == f'self.{a}'] if not ok else []
             ctx.require(ok, f'NinjaBuildElement.write: self.{a} (set) reaches `{short(w, 40)}` only through sorted() ({len(carriers)} sorted call(s))',
                         mod, 'NinjaBuildElement.write', f'self.{a} -> {norm(w.func)}(...)',
@@ -270,14 +277,41 @@ def _r2_core(ctx: RuleCtx) -> None:
     ctx.floor('set-typed attributes written by NinjaBuildElement.write', written, 2)
     # the fillers really are sets (add_dep / add_orderdep store into them): the summary R1 relies on
     for meth, attr in (('add_dep', 'deps'), ('add_orderdep', 'orderdeps')):
-        f2 = mod.func(f'NinjaBuildElement.{meth}')
-        muts = [c for c in ast.walk(f2) if isinstance(c, ast.Call) and isinstance(c.func, ast.Attribute) and c.func.attr in ('add', 'update')
-                and attr_chain(c.func.value) == f'self.{attr}']
+        q2 = f'NinjaBuildElement.{meth}'
+        f2 = mod.func(q2)
+
+        def set_muts(fn: ast.AST, target: str) -> T.List[ast.AST]:
+            out: T.List[ast.AST] = []
+            for n in ast.walk(fn):
+                if isinstance(n, ast.Call) and isinstance(n.func, ast.Attribute) and n.func.attr in ('add', 'update') and attr_chain(n.func.value) == target:
+                    out.append(n)
+                elif isinstance(n, ast.AugAssign) and isinstance(n.op, ast.BitOr) and attr_chain(n.target) == target:
+                    out.append(n)
+            return out
+        muts = set_muts(f2, f'self.{attr}')
+        via = ''
+        if not muts:
+            # the store may live in a helper of the class that is handed the set (duplicated fillers merged into one)
+            for c in ast.walk(f2):
+                if isinstance(c, ast.Call) and any(attr_chain(x) == f'self.{attr}' for x in c.args):
+                    h = _helper_of(ctx, mod, q2, c)
+                    if h is None:
+                        raise Undecided(f'{q2}: self.{attr} is handed to {short(c, 50)}, which this rule does not read')
+                    bound = _bind_args(c, h[2], h[3])
+                    pn = [k for k, v in bound.items() if attr_chain(v) == f'self.{attr}']
+                    if pn and set_muts(h[2], pn[0]) and not [x for x in ast.walk(h[2]) if isinstance(x, ast.Call) and isinstance(x.func, ast.Attribute)
+                                                              and x.func.attr in ('append', 'extend', 'insert') and attr_chain(x.func.value) == pn[0]]:
+                        muts = [c]
+                        via = f' (through {h[1]})'
+            if not muts and not any(isinstance(n, ast.Attribute) and attr_chain(n) == f'self.{attr}' for n in ast.walk(f2)):
+                raise Undecided(f'{q2}: does not mention self.{attr}; where the dependency is stored is not read')
         others = [c for c in ast.walk(f2) if isinstance(c, ast.Call) and isinstance(c.func, ast.Attribute)
                   and c.func.attr in ('append', 'extend', 'insert') and (attr_chain(c.func.value) or '').startswith('self.')]
         ctx.require(bool(muts) and not others and table.get(attr) is not None and table[attr].kind == 'set',
-                    f'NinjaBuildElement.{meth} stores only into the set self.{attr}', mod, f'NinjaBuildElement.{meth}', f2,
-                    f'{meth} no longer stores its argument (only) into the set self.{attr}: callers pass hash-ordered lists to it')
+                    f'NinjaBuildElement.{meth} stores only into the set self.{attr}{via}', mod, q2, f2,
+                    f'{meth} no longer stores its argument (only) into the set self.{attr}'
+                    + (f' (it does {short(others[0], 50)})' if others else '') + ': callers pass hash-ordered lists to it',
+                    others[0] if others else f2)
 
 
 # ---------------------------------------------------------------------------------------------- R3
@@ -293,6 +327,30 @@ def _write_opens(fn: ast.AST) -> T.List[ast.Call]:
             if isinstance(mode, ast.Constant) and isinstance(mode.value, str) and any(ch in mode.value for ch in 'wax'):
                 out.append(c)
     return sorted(out, key=lambda c: c.lineno)
+
+
+def _path_writes(fn: ast.AST) -> T.List[ast.Call]:
+    return sorted((c for c in walk_no_nested(fn) if isinstance(c, ast.Call) and isinstance(c.func, ast.Attribute)
+                   and c.func.attr in ('write_text', 'write_bytes')), key=lambda c: c.lineno)
+
+
+# calls that take a path without publishing it
+PATH_NEUTRAL = {'copymode', 'copystat', 'makedirs', 'chmod', 'join', 'dirname', 'basename', 'exists', 'isfile', 'log', 'debug', 'bold',
+                'relpath', 'abspath', 'normpath', 'open', 'write_text', 'write_bytes', 'str', 'Path', 'fspath', 'format', 'warning', 'unlink',
+                'remove', 'replace', 'from_built_file', 'from_absolute_file'}
+
+
+def _unread_calls_on(fn: ast.AST, texts: T.Set[str], skip: T.Sequence[ast.AST]) -> T.List[str]:
+    """Calls that receive one of the path expressions and that the rule does not understand (a helper that may publish the file)."""
+    out = []
+    for c in walk_no_nested(fn):
+        if isinstance(c, ast.Call) and not any(c is x for x in skip):
+            name = c.func.attr if isinstance(c.func, ast.Attribute) else (c.func.id if isinstance(c.func, ast.Name) else '?')
+            if name in PATH_NEUTRAL or name in ('replace_if_different', 'move', 'rename') or (attr_chain(c.func) or '').split('.')[0] == 'mlog':
+                continue      # neutral, or a publishing call that _finished_by reads by its argument positions
+            if any(norm(a) in texts for a in list(c.args) + [k.value for k in c.keywords]):
+                out.append(short(c, 60))
+    return out
 
 
 def _helper_of(ctx: RuleCtx, mod: Module, qual: str, call: ast.Call) -> T.Optional[T.Tuple[Module, str, T.Any, bool]]:
@@ -354,6 +412,33 @@ def _helper_writes(ctx: RuleCtx, mod: Module, qual: str, call: ast.Call, depth: 
     return None
 
 
+KNOWN_SIGNATURES = {'replace': ('src', 'dst'), 'rename': ('src', 'dst'), 'move': ('src', 'dst'), 'unlink': ('path',), 'remove': ('path',),
+                    'copy': ('src', 'dst'), 'copy2': ('src', 'dst'), 'copyfile': ('src', 'dst')}
+
+
+def _pos_args(ctx: RuleCtx, call: ast.Call) -> T.List[T.Optional[ast.AST]]:
+    """Arguments of a call in positional order, keywords bound by the callee's signature (repository function of that name, or the
+    documented signature of the few os / shutil functions the rule reads)."""
+    name = (attr_chain(call.func) or '').split('.')[-1]
+    out: T.List[T.Optional[ast.AST]] = [a for a in call.args if not isinstance(a, ast.Starred)]
+    if not call.keywords:
+        return out
+    params: T.Optional[T.Sequence[str]] = KNOWN_SIGNATURES.get(name)
+    if name == 'replace_if_different':
+        u = ctx.repo.module(UNIVERSAL)
+        if u.has_func(name):
+            params = [a.arg for a in u.func(name).args.args]
+    if params is None:
+        return out
+    for k in call.keywords:
+        if k.arg in params:
+            i = list(params).index(k.arg)
+            while len(out) <= i:
+                out.append(None)
+            out[i] = k.value
+    return out
+
+
 def _helper_finishes(ctx: RuleCtx, mod: Module, qual: str, call: ast.Call, finisher: str, dst_index: int, tmp_index: int) -> T.Optional[T.Tuple[str, str]]:
     """`call` goes to a helper in which every normal path passes finisher(<param>, <param>): (dst text, tmp text) as bound at the call."""
     h = _helper_of(ctx, mod, qual, call)
@@ -379,6 +464,7 @@ def _finished_by(ctx: RuleCtx, mod: Module, qual: str, finisher: str, dst_index:
     fn = mod.func(qual)
     calls = [c for c in walk_no_nested(fn) if isinstance(c, ast.Call)]
     sites: T.List[T.Tuple[ast.Call, str, bool]] = [(op, norm(op.args[0]), True) for op in _write_opens(fn)]
+    sites += [(c, norm(c.func.value), False) for c in _path_writes(fn)]     # Path(P).write_text(...): written and closed in one call
     for c in calls:
         if not any(c is s[0] for s in sites):
             pw = _helper_writes(ctx, mod, qual, c)
@@ -390,8 +476,9 @@ def _finished_by(ctx: RuleCtx, mod: Module, qual: str, finisher: str, dst_index:
     for op, p, direct in sites:
         fins = []
         for c in calls:
-            if (attr_chain(c.func) or '').split('.')[-1] == finisher and len(c.args) > max(dst_index, tmp_index):
-                if norm(c.args[tmp_index]) == p and norm(c.args[dst_index]) != p:
+            pa = _pos_args(ctx, c) if (attr_chain(c.func) or '').split('.')[-1] == finisher else []
+            if len(pa) > max(dst_index, tmp_index) and pa[tmp_index] is not None and pa[dst_index] is not None:
+                if norm(pa[tmp_index]) == p and norm(pa[dst_index]) != p:
                     fins.append(c)
             elif c is not op:
                 hf = _helper_finishes(ctx, mod, qual, c, finisher, dst_index, tmp_index)
@@ -402,6 +489,12 @@ def _finished_by(ctx: RuleCtx, mod: Module, qual: str, finisher: str, dst_index:
             raise Undecided(f'{qual}: open() call not found in the CFG')
         fin_nodes = [n for c in fins for n in cfg.node_containing(c)]
         ok = bool(fin_nodes) and all(cfg.must_pass(on, cfg.exit_return, fin_nodes, no_exc=True) for on in open_nodes)
+        if not fins:
+            # absence finding: only when no call the rule cannot read is handed this path (it could publish it)
+            unread = _unread_calls_on(fn, {p}, [op])
+            if unread:
+                raise Undecided(f'{qual}: `{short(op, 40)}` is not followed by {finisher}(final, {p}) here, but {p} is handed to {unread[:3]}, '
+                                'which this rule does not read')
         what = short(op, 50) if direct else f'{short(op, 50)} (helper that opens its argument for writing and closes it)'
         ctx.require(ok, f'{mod.rel}:{qual}: `{what}` writes a temporary and every normal path ends in {finisher}(final, {p})',
                     mod, qual, op,
@@ -471,11 +564,56 @@ def _r3_core(ctx: RuleCtx) -> None:
         for q, fn in mod.funcs().items():
             if (rel, q) not in WRITERS and _write_opens(fn):
                 n += _finished_by(ctx, mod, q, 'replace_if_different', 0, 1)
-    ctx.floor('open-for-write sites in the sibling writers', n, 5)
+    ctx.floor('open-for-write sites in the sibling writers', n, 3)
+    _copies_keep_mtime(ctx)
+    _generated_sources(ctx)
     _replace_if_different(ctx)
     mod = ctx.repo.module(NINJA)
     k = _finished_by(ctx, mod, 'NinjaBackend.generate', 'replace', 1, 0)
     ctx.floor('build.ninja written through a temporary', k, 1)
+
+
+def _copies_keep_mtime(ctx: RuleCtx) -> None:
+    """copy mode of configure_file: the output is produced by a copy that carries the source's mtime over (shutil.copy2), or through
+    a temporary and replace_if_different - shutil.copy / copyfile stamp the unchanged output with a new mtime on every run."""
+    for rel, qual in WRITERS:
+        mod = ctx.repo.module(rel)
+        fn = mod.func(qual)
+        for c in walk_no_nested(fn):
+            if not isinstance(c, ast.Call):
+                continue
+            cn = attr_chain(c.func) or ''
+            pa = _pos_args(ctx, c) if cn in ('shutil.copy', 'shutil.copy2', 'shutil.copyfile', 'copy2', 'copyfile') else []
+            if len(pa) < 2 or pa[1] is None:
+                continue
+            if cn in ('shutil.copy2', 'copy2'):
+                ctx.ok(f'{rel}:{qual}: `{short(c, 60)}` keeps the source mtime on the copied output')
+            elif cn in ('shutil.copy', 'shutil.copyfile', 'copyfile'):
+                dst = norm(pa[1])
+                published = [x for x in walk_no_nested(fn) if isinstance(x, ast.Call) and (attr_chain(x.func) or '').split('.')[-1] == 'replace_if_different'
+                             and len(_pos_args(ctx, x)) == 2 and None not in _pos_args(ctx, x)
+                             and norm(_pos_args(ctx, x)[1]) == dst and norm(_pos_args(ctx, x)[0]) != dst]
+                ctx.require(bool(published), f'{rel}:{qual}: `{short(c, 60)}` copies into a temporary that is published by replace_if_different',
+                            mod, qual, c,
+                            f'`{short(c, 70)}` writes the output {dst} with a fresh mtime on every configure run although its content is unchanged '
+                            '(shutil.copy2 carries the source mtime over; or copy to a temporary and finish with replace_if_different)', c)
+
+
+def _generated_sources(ctx: RuleCtx) -> None:
+    """A module method that writes a file at configure time and hands it to the build as `File.from_built_file(...)` writes an input of
+    compile edges: same idiom as the sibling writers (temporary + replace_if_different), or every reconfigure rebuilds its users."""
+    n = 0
+    for rel in ctx.repo.py_files('mesonbuild/modules'):
+        src = ctx.repo.read(rel)
+        if 'from_built_file' not in src:        # text pre-filter only
+            continue
+        mod = ctx.repo.module(rel)
+        for q, fn in mod.funcs().items():
+            if (rel, q) in WRITERS or not any(isinstance(c, ast.Call) and (attr_chain(c.func) or '').endswith('from_built_file') for c in walk_no_nested(fn)):
+                continue
+            if _write_opens(fn) or _path_writes(fn):
+                n += _finished_by(ctx, mod, q, 'replace_if_different', 0, 1)
+    ctx.note(f'generated sources written by module methods: {n} write site(s)')
 
 
 def _replace_if_different(ctx: RuleCtx) -> None:
@@ -513,6 +651,22 @@ def _replace_if_different(ctx: RuleCtx) -> None:
             if isinstance(e, ast.Compare) and len(e.ops) == 1 and isinstance(e.ops[0], (ast.Eq, ast.NotEq)) \
                     and all(isinstance(x, ast.Call) and isinstance(x.func, ast.Attribute) and x.func.attr == 'read' for x in (e.left, e.comparators[0])):
                 return isinstance(e.ops[0], ast.Eq)
+            if isinstance(e, ast.Call) and isinstance(e.func, ast.Name) and mod.has_func(e.func.id) and e.func.id != 'replace_if_different':
+                # a module helper that is handed both paths and whose every `return` is the read-comparison or a literal False
+                # ("same content": a missing destination counts as different)
+                h = mod.func(e.func.id)
+                if {norm(a) for a in e.args} >= {dst, tmp}:
+                    pols = set()
+                    for r in (x.value for x in ast.walk(h) if isinstance(x, ast.Return)):
+                        if isinstance(r, ast.Constant) and r.value is False:
+                            continue
+                        if isinstance(r, ast.Compare) and len(r.ops) == 1 and isinstance(r.ops[0], ast.Eq) and all(
+                                isinstance(x, ast.Call) and isinstance(x.func, ast.Attribute) and x.func.attr == 'read' for x in (r.left, r.comparators[0])):
+                            pols.add(True)
+                        else:
+                            pols.add(None)
+                    if pols == {True}:
+                        return True
             return None
 
         for ev in p.events:
@@ -538,6 +692,11 @@ def _replace_if_different(ctx: RuleCtx) -> None:
                         feasible = False
                         break
                     continue
+                if isinstance(e, ast.Call) and isinstance(e.func, ast.Attribute) and e.func.attr in ('exists', 'isfile', 'is_file') \
+                        and dst in {n.id for n in ast.walk(e) if isinstance(n, ast.Name)} and tmp not in {n.id for n in ast.walk(e) if isinstance(n, ast.Name)}:
+                    if not ev.val:
+                        handler = True        # look-before-you-leap form of the missing-destination handler
+                    continue
                 pol = cmp_polarity(e)
                 if pol is not None:
                     now = ev.val if pol else not ev.val
@@ -556,15 +715,24 @@ def _replace_if_different(ctx: RuleCtx) -> None:
         repl = [c for c in calls if attr_chain(c.func) in ('os.replace', 'os.rename', 'shutil.move')]
         unl = [c for c in calls if attr_chain(c.func) in ('os.unlink', 'os.remove')]
         where = p.describe()[:160]
+        understood = set(map(id, repl + unl))
+        unread = [short(c, 50) for c in calls if id(c) not in understood and attr_chain(c.func) not in ('open', 'f1.read', 'f2.read')
+                  and not (isinstance(c.func, ast.Attribute) and c.func.attr in ('read', 'close', 'exists', 'isfile'))
+                  and ({dst, tmp} & {n.id for a in list(c.args) + [k.value for k in c.keywords] for n in ast.walk(a) if isinstance(n, ast.Name)}
+                       or (isinstance(c.func, ast.Attribute) and {dst, tmp} & {n.id for n in ast.walk(c.func.value) if isinstance(n, ast.Name)}))]
+        good_equal = not repl and len(unl) == 1 and [norm(a) for a in _pos_args(ctx, unl[0])] == [tmp]
+        good_diff = len(repl) == 1 and [norm(a) for a in _pos_args(ctx, repl[0])] == [tmp, dst] and not unl
+        if unread and not (good_equal if equal is True else good_diff):
+            raise Undecided(f'replace_if_different: the path [{where}] hands {dst}/{tmp} to {unread[:3]}, which this rule does not read')
         if equal is True:
             seen_equal = True
-            ctx.require(not repl and len(unl) == 1 and [norm(a) for a in unl[0].args] == [tmp],
+            ctx.require(not repl and len(unl) == 1 and [norm(a) for a in _pos_args(ctx, unl[0])] == [tmp],
                         f'replace_if_different: contents equal -> temporary unlinked, destination untouched [{where}]', mod, 'replace_if_different',
                         repl[0] if repl else fn,
                         f'on the path where the contents compare equal the function {"replaces the destination (mtime changes)" if repl else "does not unlink the temporary " + tmp}: {where}')
         else:
             seen_diff = True
-            ok = len(repl) == 1 and [norm(a) for a in repl[0].args] == [tmp, dst] and not unl
+            ok = len(repl) == 1 and [norm(a) for a in _pos_args(ctx, repl[0])] == [tmp, dst] and not unl
             ctx.require(ok, f'replace_if_different: {"destination missing" if handler else "contents differ"} -> os.replace({tmp}, {dst}) [{where}]',
                         mod, 'replace_if_different', repl[0] if repl else fn,
                         f'on the path where the contents differ / the destination is missing the new content is not moved into place by os.replace({tmp}, {dst}): {where}')
@@ -610,41 +778,161 @@ def _resolved_chains(fl: Flow, e: ast.AST, depth: int = 0) -> T.Set[str]:
     return out
 
 
+def _resolved_leaves(fl: Flow, e: ast.AST, depth: int = 0, seen: T.Optional[T.Set[str]] = None) -> T.List[ast.AST]:
+    """Like _resolved_chains, but the leaf expressions themselves (Name / Attribute nodes) after looking through local aliases."""
+    out: T.List[ast.AST] = []
+    seen = seen if seen is not None else set()
+
+    def rec(n: ast.AST) -> None:
+        if isinstance(n, ast.Call):
+            if isinstance(n.func, ast.Attribute):
+                rec(n.func.value)
+            for a in n.args:
+                rec(a.value if isinstance(a, ast.Starred) else a)
+            for k in n.keywords:
+                rec(k.value)
+            return
+        c = attr_chain(n)
+        if c is not None:
+            if '.' not in c and depth < 4 and c not in fl.params and c in fl.defs and c not in seen:
+                seen.add(c)
+                for v in fl.defs[c]:
+                    out.extend(_resolved_leaves(fl, v, depth + 1, seen))
+            else:
+                out.append(n)
+            return
+        for ch in ast.iter_child_nodes(n):
+            rec(ch)
+    rec(e)
+    return out
+
+
+PURE_TEXT_CALLS = {'str', 'bytes', 'repr', 'format', 'encode', 'join', 'hexdigest', 'digest', 'sha1', 'sha256', 'md5', 'blake2b', 'basename',
+                   'dirname', 'get_scratch_dir', 'quote_arg', 'isinstance', 'len', 'get_build_dir', 'normpath', 'relpath', 'abspath', 'fspath',
+                   'splitext', 'lower', 'upper', 'replace', 'strip', 'new', 'sorted', 'tuple', 'list', 'map'}
+
+
+def _expr_closure(fl: Flow, e: ast.AST) -> T.List[ast.AST]:
+    """All AST nodes the value of e is computed from inside the function: e itself and, through local names, their definitions."""
+    out: T.List[ast.AST] = []
+    seen: T.Set[str] = set()
+    stack = [e]
+    while stack:
+        x = stack.pop()
+        out.append(x)
+        if isinstance(x, ast.Attribute) and attr_chain(x) is not None:
+            continue          # a field of an object: the object's own construction is not part of the value
+        if isinstance(x, ast.Name):
+            if x.id not in seen and x.id not in fl.params and x.id in fl.defs:
+                seen.add(x.id)
+                stack.extend(fl.defs[x.id])
+            continue
+        if isinstance(x, ast.Call) and isinstance(x.func, ast.Attribute):
+            stack.append(x.func.value)
+            stack.extend(a.value if isinstance(a, ast.Starred) else a for a in x.args)
+            stack.extend(k.value for k in x.keywords)
+            continue
+        stack.extend(ast.iter_child_nodes(x))
+    return out
+
+
+def _opaque_calls(nodes: T.Iterable[ast.AST]) -> T.List[str]:
+    """Calls whose result the rule does not understand (repository helpers, anything outside the text/digest vocabulary)."""
+    bad = []
+    for n in nodes:
+        if isinstance(n, ast.Call):
+            f = n.func
+            name = f.attr if isinstance(f, ast.Attribute) else (f.id if isinstance(f, ast.Name) else '?')
+            if name not in PURE_TEXT_CALLS:
+                bad.append(short(n, 50))
+    return bad
+
+
 def _scratch_name(ctx: RuleCtx, mod: Module, qual: str, required: T.Dict[str, T.Tuple[str, ...]]) -> None:
     fn = mod.func(qual)
     fl = Flow(fn, nested=False)
     opens = _write_opens(fn)
     if not opens:
         raise Undecided(f'{qual}: scratch file is not opened for writing here any more')
+    sc = _scanner(ctx) if ctx.repo.exists('mesonbuild/utils/core.py') else None
     for op in opens:
         path = op.args[0]
-        o = fl.origins(path)
-        digests = {x for x in o if x.startswith('call:') and x.endswith(('.hexdigest', '.digest'))}
-        if not ctx.require(bool(digests), f'{qual}: name of `{short(op, 50)}` contains a digest ({sorted(digests)})', mod, qual, op,
-                           f'the scratch file name {short(path, 50)} is no longer derived from a content digest'):
+        closure = _expr_closure(fl, path)
+        digests = [n for n in closure if isinstance(n, ast.Call) and isinstance(n.func, ast.Attribute) and n.func.attr in ('hexdigest', 'digest')]
+        if not digests:
+            vol = sorted(x for x in fl.origins(path) if _volatile(x))
+            if vol:
+                ctx.violation(mod, qual, op, f'the scratch file name {short(path, 50)} is derived from {vol} instead of a content digest: it changes '
+                              'between regenerations, so the command line in build.ninja changes', op)
+                continue
+            opaque = _opaque_calls(closure)
+            if opaque:
+                raise Undecided(f'{qual}: the scratch file name {short(path, 40)} is computed through {opaque[:3]}, which this rule does not read')
+            ctx.violation(mod, qual, op, f'the scratch file name {short(path, 50)} is no longer derived from a content digest '
+                          '(every part of the name was followed to literals, parameters and attributes; no hexdigest()/digest() among them)', op)
             continue
-        hashers = {d[len('call:'):].rsplit('.', 1)[0] for d in digests}
-        # what is fed to the hasher(s): arguments of <hasher>.update(...) and receivers of X.hash(<hasher>)
+        ctx.ok(f'{qual}: name of `{short(op, 50)}` contains a digest ({len(digests)} digest call(s))')
+        # what is fed to the hasher(s): constructor arguments, arguments of <hasher>.update(...), receivers of X.hash(<hasher>)
+        fed: T.List[T.Tuple[ast.AST, bool]] = []          # (expression, fed through a feeder method X.hash(hasher))
+        opaque_feed: T.List[str] = []
+        for d in digests:
+            h = d.func.value        # type: ignore[attr-defined]
+            if isinstance(h, ast.Call):
+                fed += [(a, False) for a in h.args]
+                continue
+            hname = attr_chain(h)
+            if hname is None or '.' in hname:
+                raise Undecided(f'{qual}: hasher expression {short(h, 40)} not understood')
+            for c in walk_no_nested(fn):
+                if not isinstance(c, ast.Call):
+                    continue
+                argnames = [attr_chain(a) for a in c.args] + [attr_chain(k.value) for k in c.keywords]
+                if isinstance(c.func, ast.Attribute) and attr_chain(c.func.value) == hname:
+                    if c.func.attr == 'update':
+                        fed += [(a, False) for a in c.args]
+                    elif c.func.attr not in ('hexdigest', 'digest', 'copy'):
+                        opaque_feed.append(short(c, 50))
+                elif hname in argnames:
+                    if isinstance(c.func, ast.Attribute) and c.func.attr == 'hash' and len(c.args) == 1:
+                        fed.append((c.func.value, True))
+                    else:
+                        opaque_feed.append(short(c, 50))
+            for v in fl.defs.get(hname, []):
+                if isinstance(v, ast.Call) and not (isinstance(v.func, ast.Attribute) and v.func.attr == 'update'):
+                    fed += [(a, False) for a in v.args]
         inputs: T.Set[str] = set()
         fed_origins: T.Set[str] = set()
-        n_updates = 0
-        for c in walk_no_nested(fn):
-            if not (isinstance(c, ast.Call) and isinstance(c.func, ast.Attribute)):
-                continue
-            if c.func.attr == 'update' and attr_chain(c.func.value) in hashers and c.args:
-                n_updates += 1
-                inputs |= _resolved_chains(fl, c.args[0])
-                fed_origins |= fl.origins(c.args[0])
-            elif c.func.attr == 'hash' and len(c.args) == 1 and attr_chain(c.args[0]) in hashers:
-                n_updates += 1
-                inputs |= _resolved_chains(fl, c.func.value)
-                fed_origins |= fl.origins(c.func.value)
-        bad = sorted(x for x in (o | fed_origins) if _volatile(x))
-        ctx.require(not bad, f'{qual}: nothing volatile (id/time/random/counter) flows into the name of `{short(op, 40)}` ({n_updates} digest inputs)',
+        helper_calls: T.List[str] = list(opaque_feed)
+        for e, _ in fed:
+            inputs |= _resolved_chains(fl, e)
+            fed_origins |= fl.origins(e)
+            helper_calls += _opaque_calls(_expr_closure(fl, e))
+        bad = sorted(x for x in (fl.origins(path) | fed_origins) if _volatile(x))
+        ctx.require(not bad, f'{qual}: nothing volatile (id/time/random/counter) flows into the name of `{short(op, 40)}` ({len(fed)} digest inputs)',
                     mod, qual, op,
                     f'the scratch file name depends on {bad}: it changes between regenerations, so the command line in build.ninja changes')
+        # an object whose class declares how it is to be digested (a `hash(self, hasher)` method) must be fed through that method:
+        # its str()/repr() text is not a stable rendering of its content
+        if sc is not None:
+            fc = sc._fc_chain(mod, fn, qual)
+            for e, via_method in fed:
+                if via_method:
+                    continue
+                for leaf in _resolved_leaves(fl, e):
+                    cls = sc.class_of(leaf, fc)
+                    if cls is None:
+                        continue
+                    hm = ctx.repo.find_method(cls[0], cls[1], 'hash')
+                    if hm is not None and len(hm[2].args.args) == 2:
+                        ctx.violation(mod, qual, f'{norm(leaf)} fed to the digest as text',
+                                      f'`{norm(leaf)}` is a {cls[1].name}, whose class defines {cls[1].name}.hash(hasher) to feed a digest; here its '
+                                      f'str()/repr() text is hashed instead (`{short(e, 50)}`), which is not a stable rendering of its content '
+                                      '(the scratch file name then changes between regenerations)', e)
         for what, alts in required.items():
             ok = any(a in inputs for a in alts)
+            if not ok and helper_calls:
+                raise Undecided(f'{qual}: {what} is not among the direct digest inputs, but the digest is also fed through {helper_calls[:3]}, '
+                                'which this rule does not read')
             ctx.require(ok, f'{qual}: {what} ({"/".join(alts)}) is fed to the digest that names the scratch file', mod, qual, f'digest input: {what}',
                         f'{what} ({" / ".join(alts)}) is not fed to the digest that names the scratch file any more (inputs: {sorted(inputs)[:12]}): '
                         'two different commands can collide on one file name', op)
